@@ -8,7 +8,7 @@
 s=$1; wt=$2; note=$3; p=${s%%-*}; src=/tmp/seeded/$s; log=/var/tmp/sanity; mkdir -p $log
 export PATH=/root/go/pkg/mod/golang.org/toolchain@v0.0.1-go1.24.0.linux-amd64/bin:$PATH GOTOOLCHAIN=local GOFLAGS=-mod=mod GOPROXY=off GOSUMDB=off
 [ -f $src/patch.diff ] || { echo "$s: no patch.diff"; exit 2; }
-t=$(ls $src/*_test.go | head -1); name=$(grep -o 'func Test[A-Za-z0-9_]*' $t | head -1 | cut -d' ' -f2)
+t=$(ls $src/*_test.go | head -1); name=${DEMO:-$(grep -o 'func Test[A-Za-z0-9_]*' $t | grep -vi helper | head -1 | cut -d' ' -f2)}   # DEMO=<test name> overrides
 ( MAXV=6 /verif/selftest/try_patch.sh $src/patch.diff $p > $log/try-$s.log 2>&1 ) & tp=$!
 cd $wt && git checkout -q -- . && git clean -fdq
 pkg=$(dirname $(grep -m1 '^+++ b/' $src/patch.diff | sed 's|+++ b/||')); case "$pkg" in internal/*) ;; *) pkg=. ;; esac
